@@ -67,3 +67,9 @@ def d12_groupby_idx_extreme(case, rec):
     if last is None:
         return False
     return last["op"] == "groupby_agg" and last["args"].get("how") in ("idxmax", "idxmin")
+
+
+def d47_fused_parquet_changes_partition_count(case, rec):
+    """C11: parquet source whose optimized plan has another partition count (IO fusion) - selections / to_delayed / head refer to the fused partitioning."""
+    return bool(rec.get("optimize_changes_partition_count")) and str(rec.get("source", "")).startswith("read_parquet") and rec.get("kind") in (
+        "selection-npartitions", "to_delayed-length", "head-differs", "tail-differs", "selection-differs", "to_delayed-differs", "selection-raises", "selection-divisions")
